@@ -115,7 +115,7 @@ var rules = map[string]string{
 	"C06": "each evaluation is one request (or one lexer/parser run) on one input; inputs are enumerated exhaustively from the alphabets, so they are distinct; distinct_nontrivial counts the inputs (not requests) that are not valid journals of G, which is every enumerated string, fragment sequence and pumped input",
 	"C15": "each evaluation is one complete scenario run on a fresh real server under one map-order plan (a deviating permutation at one dynamic range, or two in thorough); distinct plans by construction; every one is non-trivial because only ranges over >= 2 keys are deviated",
 	"C19": "each evaluation is one event sequence (1..4 configuration events) applied to a fresh server, followed by the comparison of all 24 effective settings and, where enabled, eight behaviour probes; non-trivial = ill-typed, non-positive, partial, wrapped/dotted or later-in-sequence payloads",
-	"C20": "each evaluation is one hover request at one position of one scenario (include tree or a graph with a file on two include paths; unsaved edits kept or discarded by closing) on a fresh server; distinct by construction; non-trivial = the aggregate spans at least two files",
+	"C20": "each evaluation is one hover request at one position of one scenario (include tree or a graph with a file on two include paths; unsaved edits kept, discarded by closing, or arriving in two files after the hovered document was analysed) on a fresh server; distinct by construction; non-trivial = the aggregate spans at least two files",
 	"C18": "each evaluation is one scenario (declaration placement, settings, root, posting set, commodity shape; opened directly, after another document was analysed - with the current file inside or outside the root journal's tree -, or reached by an edit that adds the declarations) on a fresh server; distinct parameter vectors; non-trivial = a declaration lives outside the current file or a setting is off",
 	"C16": "each evaluation is one completion request (layout, configuration, typed line, cursor) on the real server; distinct by construction; non-trivial = the set of names starting with the fragment is neither empty nor the whole table (counted once per fragment, for the first configuration of its group)",
 	"C09": "each evaluation is one references request (plus one rename request when declarations are included) at one cursor position of one scenario (optionally after a second analysis of the requesting document or after an unsaved edit was discarded) on a fresh server; scenarios are distinct parameter vectors; non-trivial = at least two files hold occurrences, or the request comes from a non-root file, or an open file differs from disk",
@@ -130,8 +130,8 @@ var rules = map[string]string{
 	"C12": "each evaluation is one transition: a fresh workspace is initialised, the update history replayed with UpdateFile on the real Workspace (once reading the cached getters only at the end, once after every update) and the last update applied; non-trivial = the last update changes the file's include list; states = distinct (disk variants, index dump, graph dump) per shard",
 	"C10": "each case is one include graph (adjacency matrix, optional dangling edge / depth limit / oversized file / path form) materialised on disk and loaded once; distinct by construction (the enumeration never repeats a parameter vector); non-trivial = the graph has a cycle, a second acyclic path to a file, a dangling edge or a limit in force",
 	"C11": "each evaluation is one transition (history + one operation) executed by replay on a fresh real Loader (part A) or on a fresh server over two documents P and X (part B: open/close/re-analyse P, open/close/change/save X, then P analysed again and compared with a fresh server in the same final state; part C: open with the saved or another text/change/save/close on M, X, Y, where membership of X and Y in the tree depends on the current texts, Q and M asked and compared with a fresh server and with a model of the tree); non-trivial = the last operation is a load that meets a non-empty cache; states are distinct (disk variants, cache contents, limits)",
-	"C14": "every schedule within the preemption bound is one race-detected execution of the real server; non-trivial = at least one preemption was taken; distinct = distinct choice sequences (the DFS never repeats one)",
-	"C13": "every schedule of the burst scenario within the preemption bound is one execution of the real server under the controlled scheduler; an execution is non-trivial when at least two PublishDiagnostics calls happened so that the schedule decided which one is last; distinct = distinct choice sequences (DFS never repeats one)",
+	"C14": "every scenario is explored completely at the quick tier's bound; the thorough tier then explores each scenario again at its deeper bound inside an equal share of the remaining time budget (capped scenarios are listed under caps_hit and marked in bounds). Every schedule within the preemption bound is one race-detected execution of the real server; non-trivial = at least one preemption was taken; distinct = distinct choice sequences (the DFS never repeats one)",
+	"C13": "every scenario is explored completely at the quick tier's bound; the thorough tier then explores each scenario again at its deeper bound inside an equal share of the remaining time budget (capped scenarios are listed under caps_hit and marked in bounds). Every schedule of the burst scenario within the preemption bound is one execution of the real server under the controlled scheduler; an execution is non-trivial when at least two PublishDiagnostics calls happened so that the schedule decided which one is last; distinct = distinct choice sequences (DFS never repeats one)",
 }
 
 var assumptions = map[string][]string{
@@ -153,6 +153,6 @@ var assumptions = map[string][]string{
 	"C12": {"every update writes the new content to disk and passes the same content to UpdateFile (what didSave does)", "payee templates / commodity formats may depend on file order when member files disagree (the rebuild itself ranges over a map)"},
 	"C10": {"files are regular files in one directory tree on tmpfs; HOME points into the scratch tree"},
 	"C11": {"a file is only changed on disk together with InvalidateFile (as didChange/didSave do)", "part B: the fresh reference server reaches the final state along the shortest way (open with the saved text, one change to the editor text)"},
-	"C14": {"a message handler that waits for a write lock whose owner is inside a call to the client is reported as blocked (the scheduler records lock owners and client calls)", "pulls of the queued-configuration scenario are answered in request order (k-th pull, k-th payload)", "race-invisible cooperative hand-off (plain word, //go:norace, GOMAXPROCS=1): the race detector sees only the synchronisation of the production code", "responses are compared with sequential executions in which background computations are finished or pending (never reordered); configuration refreshes may be pending at request time, superseded document analyses may not be used"},
+	"C14": {"after a drain with nothing spawned since, only the response of the sequential run is accepted; text of an unsaved edit that was discarded by closing its file may show in no later response", "a message handler that waits for a write lock whose owner is inside a call to the client is reported as blocked (the scheduler records lock owners and client calls)", "pulls of the queued-configuration scenario are answered in request order (k-th pull, k-th payload)", "race-invisible cooperative hand-off (plain word, //go:norace, GOMAXPROCS=1): the race detector sees only the synchronisation of the production code", "responses are compared with sequential executions in which background computations are finished or pending (never reordered); configuration refreshes may be pending at request time, superseded document analyses may not be used"},
 	"C13": {"the included file of the save scenarios is rewritten on disk at the start of every execution (the disk is part of the explored state)", "scheduling points at sync.Map / RWMutex operations, goroutine start/end and client calls are sufficient (unsynchronised accesses are C14's business)", "jsonrpc2 handles messages serially (no AsyncHandler installed in main.go)"},
 }
